@@ -55,6 +55,11 @@ def run_shard(desc, acc, tier):
             check(P, acc, {"kind": "P", "fam": name, "k": k, "ast": m})
 
 
+def mspace_clone(P):
+    variables = [puan.variable(v.id, tuple(int(x) for x in v.bounds.as_tuple())) for v in P.variables]
+    return pnd.ge_polyhedron(np.asarray(P, dtype=np.int64).copy(), variables=variables, index=list(P.index))
+
+
 def sol_set(P):
     """(bounds, points, feasible mask) by brute force."""
     bds = [tuple(v.bounds.as_tuple()) for v in P.variables[1:]]
@@ -82,6 +87,22 @@ def check(P, acc, case, depth=0):
     except BaseException as e:
         acc.violation(None, case, dict(desc, what="reduction API raised", exc=repr(e), depth=depth))
         return
+    if depth == 0:
+        # the same queries in the opposite order on a second, identical object
+        try:
+            Q = mspace_clone(P)
+            rows2, cols2 = Q.reducable_rows_and_columns()
+            rc2 = np.asarray(Q.reducable_columns_approx(), dtype=float)
+            rr2 = np.asarray(Q.reducable_rows()).astype(bool)
+        except BaseException as e:
+            acc.violation(None, case, dict(desc, what="reduction API raised in the reverse-order pass", exc=repr(e)))
+            return
+        acc.n("transitions", 3)
+        same = (np.asarray(rows2).tolist() == rows.tolist() and np.array_equal(np.asarray(cols2, dtype=float), cols, equal_nan=True)
+                and np.array_equal(rc2, rc, equal_nan=True) and rr2.tolist() == rr.tolist())
+        if not same:
+            acc.violation(None, case, dict(desc, what="the reduction queries answer differently when asked in another order (history)"))
+            return
     acc.n("transitions", 4)
     acc.obs(rr.tolist(), np.nan_to_num(rc, nan=-99).tolist(), rows.tolist(), np.nan_to_num(cols, nan=-99).tolist(), np.asarray(R).tolist())
     # 1. rows flagged reducible hold on every box point
